@@ -89,7 +89,9 @@ fn gen_cfg(family: &str, rng: &mut Rng, case: u64) -> EngCfg {
                 cfg.max_dgrams = 100;
                 cfg.public_api_pct = 0;
                 cfg.abandon_pct = 25;
-                cfg.hold_views_pct = 0;
+                // views held across the index wrap keep their slot claimed: the slot must not
+                // keep matching its old index meanwhile
+                cfg.hold_views_pct = if rng.bool() { 0 } else { 60 };
                 cfg.index_wrap = true;
                 cfg.max_steps = 200_000;
             }
